@@ -7,7 +7,7 @@ from fractions import Fraction
 
 from ..absint import Interp, ObjV
 from ..forms import Const, Form, fpow, mk_fn
-from ..rules import S, pull_scalars, check_range_guard, check_type_guard, Reject
+from ..rules import S, pull_scalars, check_range_guard, check_type_guard, Reject, check_late_binding
 from ..srcmodel import src_of
 
 EXPLANATION = (
@@ -56,6 +56,9 @@ def run(ctx):
         it = Interp(pkg, assumptions={"include_noise": opt, "input.noise": noise, "input.n_pol": npol}, param_classes={"input": "optical_signal"})
         outs = it.run(fi)
         rets = [o for o in outs if o.kind == "return"]
+        if not rets and outs and all(o.kind == "raise" for o in outs):
+            ctx.violation("C09.3", fi, outs[-1].node, f"PD: documented option '{opt}' is rejected ({outs[-1].exc})", "every documented include_noise selection must be accepted in any letter case")
+            continue
         if len(rets) != 1 or not isinstance(rets[0].value, ObjV):
             ctx.unknown("C09.3", fi, fi.node, f"PD [{case}]", f"{len(rets)} return paths")
             continue
@@ -158,6 +161,7 @@ def run(ctx):
     it = Interp(pkg, assumptions={"input": ("notinst", "optical_signal")})
     outs = it.run(fi)
     ctx.check("C09.5", bool(outs) and outs[0].kind == "raise" and outs[0].exc == "TypeError", fi, fi.node, "PD: non-optical input", "raises TypeError", "non-optical input is not rejected with TypeError first")
+    check_late_binding(ctx, "C09.7", ["devices.PD"])
     ctx.require_min("C09.2", 4)
     ctx.require_min("C09.3", 20)
     ctx.require_min("C09.4", 4)
